@@ -741,9 +741,9 @@ class Exec:
                     if v[0] == "ref" and len(v) > 2 and v[2] is not None:
                         idx = v[2]
                 elif isinstance(v, tuple) and v[0] in ("constval", "ucall", "pre", "arg", "proj", "post", "ret"):
-                    path = ("X:" + show(v),)  # opaque pointee: reads yield pre(X:..)
+                    path = (self.opaque_root(v),)  # opaque pointee: reads yield pre(X:..)
                 elif isinstance(v, tuple) and v[0] == "gamma" and all(isinstance(l, tuple) and l[0] in ("constval", "ucall", "pre", "arg", "proj", "post", "ret") for _, l in leaves(v)):
-                    path = ("X:" + show(v),)  # a choice between opaque pointees (e.g. one of several string literals)
+                    path = (self.opaque_root(v),)  # a choice between opaque pointees (e.g. one of several string literals)
                 else:
                     raise Unsupported("deref of %s" % show(v))
             elif k == "field":
@@ -762,6 +762,14 @@ class Exec:
             else:
                 raise Unsupported("projection " + k)
         return path, idx
+
+    @staticmethod
+    def opaque_root(v):
+        """name of the pointee of an opaque pointer: the printed term (truncated by `show`) plus a digest of the whole term, so that
+        two different deep pointers never share a root"""
+        import hashlib
+        s_ = show(v)
+        return "X:" + s_ + ("" if len(s_) < 200 and "…" not in s_ and "..." not in s_ else "#" + hashlib.sha1(repr(v).encode()).hexdigest()[:12])
 
     def read_place(self, fr, st, place):
         path, idx = self.place_path(fr, st, place)
@@ -996,7 +1004,14 @@ class Exec:
                 c = x if c is None else self.mk_and(c, x)
             return c
         if is_const(d):
-            return TRUE if int(d[2]) == int(value) else FALSE
+            # switch values are raw bit patterns of the discriminant's type; a negative constant is its two's complement there
+            dv_, sv_ = int(d[2]), int(value)
+            if dv_ < 0 or sv_ < 0:
+                for w_ in (8, 16, 32, 64, 128):
+                    if dv_ % (1 << w_) == sv_ % (1 << w_):
+                        return TRUE
+                return FALSE
+            return TRUE if dv_ == sv_ else FALSE
         if d[0] == "gamma":
             a = self.cond_for(d[2], value, all_values)
             b = self.cond_for(d[3], value, all_values)
@@ -1290,7 +1305,16 @@ class Exec:
                 snap = []
                 for pre_ in self._borrowed_roots(st, args):
                     snap.append(tuple(sorted(((pstr(k_), v_) for k_, v_ in st.store.m.items() if k_[:len(pre_)] == pre_), key=repr)))
-                res = ("ucall", g.label, tuple(args), len(st.steps)) + ((("at", tuple(snap)),) if any(snap) else ())
+                argv = []
+                for a in args:
+                    if isinstance(a, tuple) and a and a[0] == "ref" and not isinstance(a[1][0], str):
+                        try:
+                            argv.append(("ref_to", self.deref_val(st, a)))   # a local receiver: its value now, not its address
+                            continue
+                        except Unsupported:
+                            pass
+                    argv.append(a)
+                res = ("ucall", g.label, tuple(argv), len(st.steps)) + ((("at", tuple(snap)),) if any(snap) else ())
         elif cls == "user":
             res = ("get", callee["name"], args[0])
         else:
